@@ -13,3 +13,7 @@ func c04ReadRecord(r Reader) error {
 		return r.Skip()
 	})
 }
+
+func c01EncodeQuery(write func(Writer) error) (string, error) {
+	return BuildQueryParams(func(pw func(string) Writer) error { return write(pw("p")) })
+}
